@@ -13,10 +13,10 @@ class C17(Prop):
     level_text = ('c17_fresh_connection (for every state the previous connection was left in), c17_served(_early_request), c17_keepalives_restart and c17_any_number are kernel-checked on the '
                   'client life-cycle model shared with C16; the model is replayed on the entry-point sequence observed from a real RSocketClient that is reconnected after server EOF, transport '
                   'error, keepalive timeout or while healthy, with interactions pending, 1..4 times in a row.')
-    level_note = 'Trusted: Lean kernel + standard axioms; provider generators and transport.close() are application code; virtual clock.'
+    level_note = 'Trusted: Lean kernel + standard axioms; provider generators are application code; transport.close() may raise (scripted); virtual clock.'
     design_ref = '§5 C17'
     rule = ('cause of the previous connection\'s end (server EOF, transport error, keepalive timeout, healthy) x pending request-responses/streams at that moment x 1..4 consecutive '
-            'reconnects x provider/connect suspensions; after each reconnect a request is issued and answered by the harness on the new transport and the clock is advanced by two '
+            'reconnects x provider/connect suspensions x close() of the old transport raising ConnectionResetError or not; after each reconnect a request is issued and answered by the harness on the new transport and the clock is advanced by two '
             'keep-alive periods; non-trivial = something was pending or the cause was a timeout; distinct = distinct case')
     assumptions = ['the transport provider yields a fresh transport for every reconnect']
 
@@ -26,7 +26,7 @@ class C17(Prop):
         for _ in range(n):
             k = rng.randint(1, 4)
             out.append({'rounds': [{'cause': rng.choice(['eof', 'error', 'timeout', 'healthy']), 'pending_rr': rng.randint(0, 2), 'pending_stream': rng.randint(0, 1),
-                                    'early_request': rng.random() < 0.4} for _ in range(k)],
+                                    'early_request': rng.random() < 0.4, 'close_raises': rng.random() < 0.35} for _ in range(k)],
                         'p': rng.randint(0, 2), 'c': rng.randint(0, 2)})
         return out
 
@@ -74,6 +74,9 @@ class C17(Prop):
         sid0, ok0 = await serve_one(0)
         for r in case['rounds']:
             t = R.transports[ti]
+            if r.get('close_raises'):
+                # closing the old transport fails (as closing a reset TCP connection does): the reconnect must go on regardless
+                t.close_error = ConnectionResetError(104, 'Connection reset by peer')
             pend = [c.request_response(Payload(b'p%d' % i)) for i in range(r['pending_rr'])]
             subs = []
             for _ in range(r['pending_stream']):
